@@ -259,7 +259,13 @@ def slicing_check(ctx, rng, n):
         ntime = rng.randint(2, 3)
         times = np.arange(ntime, dtype=float)
         nr, nt, nz = rng.randint(2, 4), rng.randint(2, 5), rng.randint(2, 5)
-        ntube = rng.randint(1, 3)
+        # tube order in the link is the panel's insertion order: custom names that do not sort in insertion order,
+        # or more than ten default names ('10' sorts before '2'), must not change it
+        naming = rng.choice(["default", "custom", "many-default"])
+        ntube = rng.randint(11, 12) if naming == "many-default" else rng.randint(1, 3)
+        names = [None] * ntube
+        if naming == "custom":
+            names = rng.sample(["b", "a", "10", "2", "tube-z", "Tube-A", "01"], ntube)
         panel = receiver.Panel(1.0)
         kinds, mults = [], []
         R, t_, H = rng.uniform(10, 30), rng.uniform(1, 3), rng.uniform(1000, 5000)
@@ -281,7 +287,7 @@ def slicing_check(ctx, rng, n):
             if kind == "3D":
                 code = code + idx[3]
             tube.add_quadrature_results("ghost_temperature", code.astype(float))
-            panel.add_tube(tube)
+            panel.add_tube(tube, names[j])
             kinds.append(kind)
             mults.append(mult)
         fp = flowpath.FlowPath(times, np.ones(ntime), np.ones(ntime))
@@ -300,7 +306,7 @@ def slicing_check(ctx, rng, n):
                         if kind == "3D":
                             v += (z + 1)
                         exp[a, j, th, z] = v
-        desc = {"kinds": kinds, "nr": nr, "nt": nt, "nz": nz, "ntime": ntime}
+        desc = {"kinds": kinds, "nr": nr, "nt": nt, "nz": nz, "ntime": ntime, "names": names}
         ok = got.shape == exp.shape and np.array_equal(got, exp)
         ok_w = list(np.asarray(link.weights, float)) == [float(m) for m in mults] and \
             list(np.asarray(man.weights, float)) == [float(m) for m in mults]
